@@ -1,4 +1,155 @@
 import SdcModel.Fp64
 import SdcModel.Scalars
+import SdcModel.Proofs.Fp64
+import SdcModel.Proofs.ScalarsTs
+import SdcModel.Proofs.ScalarsStr
+import SdcModel.Proofs.ScalarsDecVal
+import SdcModel.Proofs.ScalarsDecLex
+import SdcModel.Proofs.ScalarsDur
+import SdcModel.Proofs.ScalarsEnum
+import SdcModel.Generated.ScalarsEnums
+/-!
+# C18 — scalar XML value conversions are exact over the wire value space
+Property theorems only. Models: `SdcModel/Fp64.lean` (binary64 on integers), `SdcModel/Scalars.lean` (converters);
+helper lemmas in `SdcModel/Proofs/Fp64.lean`, `Proofs/Scalars*.lean`; enum tables regenerated on every run.
+Strings are lists of code points; `Fp.abs x : ℚ` is the exact value of a float, `Dec.value d : ℚ` of a Decimal.
+-/
 namespace Sdc.C18
+open Sdc.Fp64 Sdc.Scalars
+
+/-! ### timestamps -/
+
+/-- XML → Python → XML: every millisecond count `n < 2^53 / 1000` survives `round((n / 1000) * 1000)` on the
+    bit-exact binary64 model (all `n`, no sampling) -/
+theorem ts_xml_py_xml (n : Nat) (h : n * 1000 < 2 ^ 53) : tsXml (tsPy (n : Int)) = (n : Int) :=
+  tsXml_tsPy n h
+
+example : (9007199254740 : Nat) * 1000 < 2 ^ 53 := by decide
+example : tsXml (tsPy 1001) = 1001 := by decide
+
+/-- the same at the level of the wire strings: `to_xml(to_py(str(n))) == str(n)` -/
+theorem ts_xml_py_xml_str (n : Nat) (h : n * 1000 < 2 ^ 53) :
+    (tsToPy (natStr n)).map tsToXml = .ok (natStr n) := by
+  have h1 : intToPy (natStr n) = .ok (n : Int) := by
+    have := intToPy_intToXml (n : Int)
+    unfold intToXml intStr at this
+    have hn : ¬ ((n : Int) < 0) := by omega
+    simpa [hn] using this
+  unfold tsToPy
+  rw [h1]
+  show Except.ok (tsToXml (tsPy (n : Int))) = _
+  unfold tsToXml
+  rw [tsXml_tsPy n h]
+  unfold intStr
+  simp
+
+/-- Python → XML → Python: a float timestamp `0 ≤ x ≤ 2^41` s (year ≈ 71 000) comes back changed by less than 1 ms -/
+theorem ts_py_xml_py (x : Fp) (hpos : x.neg = false) (hx : x.abs ≤ 2 ^ 41) :
+    ∃ k : Nat, tsXml x = (k : Int) ∧ |(tsPy (k : Int)).abs - x.abs| < 1 / 1000 :=
+  tsPy_tsXml_close x hpos hx
+
+example : (⟨false, 2 ^ 52 + 12345, -22⟩ : Fp).abs ≤ 2 ^ 41 := by
+  unfold Fp.abs; norm_num
+
+/-! ### decimals -/
+
+/-- Python → XML → Python: every `Decimal` with at most 18 digits and exponent ≥ -18 (in particular [-18, 18];
+    negative and zero coefficients included) keeps its numeric value and its sign, and the XML text consists of
+    digits, `-` and `.` only (no exponent notation) -/
+theorem dec_value_preserved (d : Dec) (hc : d.coeff < 10 ^ 18) (he : -18 ≤ d.exp) :
+    ∃ d', decToPy (decToXml d) = .ok d' ∧ d'.value = d.value ∧ d'.neg = d.neg ∧ Plain (decToXml d) :=
+  decToPy_decToXml d hc he
+
+example : decToXml ⟨true, 123456789012345678, -18⟩ = [45, 48, 46, 49, 50, 51, 52, 53, 54, 55, 56, 57, 48, 49, 50, 51, 52, 53, 54, 55, 56] := by
+  decide
+example : decToXml ⟨false, 1, -7⟩ = [48, 46, 48, 48, 48, 48, 48, 48, 49] := by decide
+
+/-- XML → Python → XML → Python: an accepted xsd:decimal text with at most 18 digits is parsed to a Decimal in
+    the range of `dec_value_preserved`, so writing it and reading it again gives the same value -/
+theorem dec_xml_py_xml (s : Str) (d : Dec) (h : decToPy s = .ok d) (h18 : (s.filter isDigit).length ≤ 18) :
+    ∃ d', decToPy (decToXml d) = .ok d' ∧ d'.value = d.value ∧ Plain (decToXml d) := by
+  obtain ⟨hc, he, _⟩ := decToPy_bounds s d h
+  have hc' : d.coeff < 10 ^ 18 := Nat.lt_of_lt_of_le hc (Nat.pow_le_pow_right (by omega) h18)
+  obtain ⟨d', h1, h2, _, h4⟩ := decToPy_decToXml d hc' (by omega)
+  exact ⟨d', h1, h2, h4⟩
+
+example : decToPy [32, 45, 48, 48, 55, 46, 53, 48, 10] = .ok ⟨true, 750, -2⟩ := by decide
+
+/-! ### durations -/
+
+/-- `parse_duration(duration_string(·))` at the integer microsecond boundary: the text written for `total`
+    microseconds (any value up to `timedelta.max`) is parsed back to exactly `total` microseconds.
+    `FloatStepExact` is the statement that `float('s.f')` and the float branch of `timedelta(seconds=…)` are exact for
+    `s < 60` and at most six fraction digits (trusted; the executable model of these steps is in the driver and under
+    bit-exact correspondence). -/
+theorem duration_roundtrip (hfs : FloatStepExact) (total : Nat) (hmax : total / usPerDay ≤ maxDays) :
+    parseDurationUs (durationStringUs total) = .ok total :=
+  parseDurationUs_durationStringUs hfs total hmax
+
+example : durationStringUs 3723000001 = [80, 84, 49, 72, 50, 77, 51, 46, 48, 48, 48, 48, 48, 49, 83] := by decide
+example : parseDurationUs [80, 84, 49, 72, 50, 77, 51, 46, 48, 48, 48, 48, 48, 49, 83] = .ok 3723000001 := by decide
+
+/-! ### lexical spaces -/
+
+/-- integers: anything outside `[+-]?[0-9]+` (after xml white space stripping) is rejected … -/
+theorem lexical_reject_integer (s : Str) (h : ¬ IntegerLex (xmlStrip s)) : intToPy s = .error .value :=
+  intToPy_reject s h
+
+/-- … and exactly the lexical space is accepted, `str` / `int` being inverse -/
+theorem lexical_accept_integer (s : Str) : (∃ i, intToPy s = .ok i) ↔ IntegerLex (xmlStrip s) := intToPy_ok_iff s
+
+theorem integer_roundtrip (i : Int) : intToPy (intToXml i) = .ok i := intToPy_intToXml i
+
+/-- timestamps use the integer recogniser -/
+theorem lexical_reject_timestamp (s : Str) (h : ¬ IntegerLex (xmlStrip s)) : tsToPy s = .error .value :=
+  tsToPy_reject s h
+
+/-- decimals: anything outside `[+-]?([0-9]+(\.[0-9]*)?|\.[0-9]+)` (no exponent, no NaN/Infinity, ASCII digits) is rejected … -/
+theorem lexical_reject_decimal (s : Str) (h : ¬ DecimalLex (xmlStrip s)) : decToPy s = .error .value :=
+  decToPy_reject s h
+
+theorem lexical_accept_decimal (s : Str) : (∃ d, decToPy s = .ok d) ↔ DecimalLex (xmlStrip s) := decToPy_ok_iff s
+
+example : ¬ IntegerLex (xmlStrip [49, 95, 48, 48, 48]) := by   -- '1_000'
+  intro h
+  have := (intToPy_ok_iff [49, 95, 48, 48, 48]).mpr h
+  obtain ⟨i, hi⟩ := this
+  have : intToPy [49, 95, 48, 48, 48] = .error .value := by decide
+  rw [this] at hi; cases hi
+
+/-- enums: a string that is not a literal of the class is rejected; an accepted one is written back unchanged -/
+theorem lexical_reject_enum (lits : List Str) (s : Str) (h : s ∉ lits) : enumToPy lits s = .error .value :=
+  enumToPy_reject lits s h
+
+theorem enum_roundtrip (lits : List Str) (s : Str) (i : Nat) (h : enumToPy lits s = .ok i) : enumToXml lits i = s :=
+  enumToXml_enumToPy lits s i h
+
+/-- … and for the enum classes of `pm_types` / `msg_types` (generated table) every member survives
+    Python → XML → Python, because the literals of each class are pairwise distinct -/
+theorem generated_enums_roundtrip :
+    ∀ t ∈ Generated.enumTables, ∀ i, i < t.2.length → enumToPy t.2 (enumToXml t.2 i) = .ok i := by
+  have hnd : ∀ t ∈ Generated.enumTables, t.2.Nodup := by decide
+  intro t ht i hi
+  exact enumToPy_enumToXml t.2 (hnd t ht) i hi
+
+/-- booleans, exact on the lexical space `{true, false, 1, 0}` … -/
+theorem boolean_exact_partial (t : Str) (h : BooleanLex t) : boolToPy t = .ok (decide (t = litTrue ∨ t = [49])) :=
+  boolToPy_lex t h
+
+theorem boolean_roundtrip (b : Bool) : boolToPy (boolToXml b) = .ok b ∧ BooleanLex (boolToXml b) :=
+  ⟨boolToPy_boolToXml b, boolToXml_lex b⟩
+
+/-- the full statement for booleans … -/
+def lexical_reject_boolean_full : Prop := ∀ s : Str, ¬ BooleanLex s → boolToPy s = .error .value
+
+/-- … is false for the code as it is: `BooleanConverter.to_py('TRUE')` is `False`, not an error (known finding
+    `lexical:boolean-coerced`; the test-suite asserts this leniency) -/
+theorem lexical_reject_boolean_refuted : ¬ lexical_reject_boolean_full := by
+  intro h
+  have h1 : ¬ BooleanLex [84, 82, 85, 69] := by
+    intro hb; rcases hb with hb | hb | hb | hb <;> simp [litTrue, litFalse] at hb
+  have := h [84, 82, 85, 69] h1
+  have h2 : boolToPy [84, 82, 85, 69] = .ok false := rfl
+  rw [h2] at this; cases this
+
 end Sdc.C18
